@@ -187,7 +187,7 @@ func init() {
 		"Databases: every subset of <= 2 (quick; plus 4 prefix-chain triples) / <= 3 (thorough) keys of the universe {a, a\\x00, a\\xff, ab, b, \\xff\\xff} x one of 5 version histories per key (v | v v' | v del | del v | v del v') x every placement of the global write order into 4 storage layers (a deeper level with several small tables, two L0 tables, the memtable; quick: cut points from a 4-value grid, thorough: every cut), inline and value-log values, bloom filters on, plus the internal end-of-transaction keys. Per database: direction x AllVersions x InternalAccess x Prefix {none,a,ab,b,a\\xff} x 6 (readTs, SinceTs) pairs, prefetch mode rotating over {off, size 0/1/2/100}: Rewind and Seek to every universe key and 9 gap probes (12 with internal access) walked to the end, Rewind after Seek, NewKeyIterator for every universe key, Valid/ValidForPrefix agreement; each item's key, version, value (Value and ValueCopy), user meta and deleted flag compared with a sorted-list reference model.",
 		"Managed-mode on-disk DB so that versions and read timestamps are chosen; seeks outside the iterator's own prefix are not compared (unspecified).",
 		"nested enumeration; distinct = distinct (key subset, histories, layer cuts) databases; counters: databases, walks",
-		[]Stage{en("c05iter", 16, 100, prm("max_keys", 2))},
+		[]Stage{en("c05iter", 16, 160, prm("max_keys", 2))},
 		[]Stage{en("c05iter", 16, 1500, prm("max_keys", 3, "all_cuts", true))})
 
 	planTable["C06"] = func(q bool) *Plan {
